@@ -371,7 +371,7 @@ void mpi_case(Rng& rng, std::uint64_t idx)
 
 } // namespace
 
-std::uint64_t vfh_num_cases(bool thorough) { return thorough ? 9000 : 400; }
+std::uint64_t vfh_num_cases(bool thorough) { return thorough ? 36000 : 400; }
 
 void vfh_run_case(std::uint64_t idx, Rng& rng)
 {
